@@ -12,9 +12,11 @@ impl P32E2 {
         if sign {
             ui_a = ui_a.wrapping_neg();
         } // A is now |A|.
-        let u_a = if ui_a <= 0x_4000_0000 {
+        let u_a = if ui_a == 0 {
+            return self;
+        } else if ui_a <= 0x_4000_0000 {
             // 0 <= |pA| < 1 floor to zero.(if not negative and whole number)
-            if sign && (ui_a != 0x0) {
+            if sign && (ui_a != 0x_4000_0000) {
                 0x0
             } else {
                 0x_4000_0000
